@@ -403,7 +403,11 @@ RunOutput run_fault(const Plan& plan, const RunOpts&)
                     {
                         Session F(spec);
                         F.construct_solver();
-                        E.run_position(F, pos, 1);
+                        // the fresh-solver pass throws a different exception type at this k than the persistent-solver pass did,
+                        // so every position meets two of the three types (polymorphic non-std, std::runtime_error subclass, int)
+                        Position q = pos;
+                        if (q.type != FT_POISON && !plan.params.has("k")) q.type = (pos.type + 1) % 3;
+                        E.run_position(F, q, 1);
                         hh.u64(F.ctx.log.h);
                     }
                     if (out.viol.size() == nv) balanced(pos, 1, b0);
